@@ -549,3 +549,27 @@ def r01_9_user_classes_registered_last(ctx, rid='R01.9'):
             'name the built-in constructor wins, and the object built is not an instance of the recognised class'
             % (norm(later[0])[:60] if later else ''))
     r.done()
+
+
+def r18_10_reference_owned_node(ctx, rid='R18.10'):
+    """An aliased node is one object reached once per reference.  What __process_node writes on it (the tag of the *expected* type
+    of that reference, stripped tags under Any, processed children) is only right for every reference if each reference works on
+    its own copy - or if the document was expanded before processing."""
+    P = ctx.P
+    r = ctx.rule(rid, '__process_node does not write a node that other references share: it works on a copy of its argument (or the '
+                      'tree was de-aliased before), so that a second reference with another expected type starts from the composed node',
+                 floor=1)
+    f = fn(P, S.PN)
+    node = f.fi.params[1]
+    copies = [n for n in f.walk() if isinstance(n, ast.Assign) and len(n.targets) == 1 and norm(n.targets[0]) == node
+              and isinstance(n.value, ast.Call) and call_name(n.value) in ('copy', 'deepcopy') and n.value.args and norm(n.value.args[0]) == node]
+    writes = [w for w in H.node_writes(f) if isinstance(w, ast.Attribute) and norm(w.value) == node]
+    owned = bool(copies) and all(any(f.cfg.dominates(f.nid(c), f.nid(w)) for c in copies) for w in writes)
+    g = fn(P, LOADER + 'get_single_node')
+    dealiased = any(call_name(c) in ('__expand_aliases', '__dealias') for c in g.walk() if isinstance(c, ast.Call))
+    r.check(owned or dealiased, '__process_node writes only nodes it owns', f.key('in-place-write-to-shared-node'), f.loc(writes[0]) if writes else f.loc(),
+            '__process_node writes %s on the node object it was given; through an alias the same object is reached again with another '
+            'expected type, and the second visit overrides what the first established: `p: &a {x: 1}` / `q: *a` with p: P, q: Any is '
+            'rejected (the Any visit strips the !P tag) although the expanded document loads, and with the keys swapped q receives the '
+            'P object' % ', '.join(sorted({norm(w) for w in writes})[:3]))
+    r.done()
